@@ -641,7 +641,10 @@ def biff_workbook(names, sheet_records, mutate=None):
     given records (which contain their EOF); a worksheet BOF is put in front of a record list that does
     not start with one (Merge.enc_xls_sheet writes the sheet's BOF itself)."""
     bof_g = rec(0x0809, struct.pack("<HHHHII", 0x0600, 0x0005, 0x0DBB, 0x07CC, 0, 0x0306))
-    cp = rec(0x0042, struct.pack("<H", 1200))
+    # any CodePage record or none: BIFF8 text (the sheet names) never depends on it (audit-2 XLS-1)
+    import zlib
+    cpv = [1200, 1200, 1252, 1252, 932, 936, 1251, 65001, 10000, 437, 54321, None][zlib.crc32(repr(names).encode("utf-8", "replace")) % 12]
+    cp = b"" if cpv is None else rec(0x0042, struct.pack("<H", cpv))
     bof_s = rec(0x0809, struct.pack("<HHHHII", 0x0600, 0x0010, 0x0DBB, 0x07CC, 0, 0x0306))
 
     def bs(pos, name):
